@@ -30,6 +30,13 @@ def run(prog, rep):
     rep.attempt(size_identity, prog, cd, rep, with_consumed=False)
     rep.attempt(lambda: M.parse_on_enter(ct, rep))
     rep.attempt(lambda: M.flush_on_exit(ct, rep))
+    # every table entry is exactly ENT bytes only if the comment field is exactly 256 bytes
+    from .c13 import string_write_rules
+    rep.attempt(string_write_rules, prog, rep)
+    # a refused add/remove inside a history must leave table and file as they were (C07's path rule for the two primitives)
+    from ..codecs import Codecs as _Codecs
+    from .c07 import path_rules
+    rep.attempt(path_rules, ct, _Codecs(prog), rep, names=("add_block", "remove_block"), include_setters=False, prefix="refusal-leaves-table/")
     rep.not_decided += ["the global non-overlap invariant over concrete histories and sizes",
                         "foreign files that are already inconsistent"]
     rep.trusted += ["file objects: seek/write/truncate semantics of CPython binary files"]
